@@ -12,6 +12,33 @@ COMMON_NOTE = ("Trusted base: rustc nightly's MIR (mir-opt-level=0) of the dev p
                "as values.")
 
 CHECKS = {
+    "C01": ("static analysis: closed producer set of Tour (who-may-construct/call), decision slices of every producer, "
+            "abstract interpretation of the dummy-provider type check, shape/inputs of can_reach, flow arcs along predecessors",
+            "Decides the representation-invariant argument behind feasible itineraries on all paths: who can build a "
+            "Tour, which tests each producer's decision depends on, type guards in front of every operation that gives a "
+            "vehicle new nodes, and the documented timing rule's shape and inputs. Value-level correctness of the "
+            "position searches is not decided.", "5 C01"),
+    "C03": ("static analysis: field provenance tables of all output structs (pure data slices), unconditional-in-loop "
+            "reporting, dead-head emission condition, formation updates wherever tours change",
+            "Decides which model quantity each JSON field is filled from, that every segment/slot/vehicle/cycle of the "
+            "iterated sets is pushed unconditionally, that dead-head trips are emitted exactly under the location-change "
+            "test, and that formations follow tour changes. 'Exactly once' and equality of views on concrete schedules "
+            "are not decided.", "5 C03"),
+    "C07": ("static analysis: flow lower-bound provenance, operand pairing in the requirement function, Option-presence "
+            "abstract interpretation, objective level order, frame conditions of post-search stages",
+            "Decides that trip lower bounds derive from required vehicles capped by the per-trip limit, that the "
+            "requirement pairs passengers/capacity and seated/seats, that unserved passengers are the first level and a "
+            "sum of both deficits, and that later stages never touch formations. Equality with the instance's lower bound "
+            "is a runtime quantity and is not decided.", "5 C07"),
+    "C10": ("static analysis: coupled listings, sorted-edit provenance (binary search), changed-vehicle reporting, batched "
+            "cycle updates, fresh-id discipline, plus the producer/guard rules of C01, C02 and C03.R3",
+            "Decides the structural conditions each invariant rests on for every producer and every path. The invariants "
+            "as values on concrete schedules are not decided.", "5 C10"),
+    "C17": ("static analysis: positional provenance loader -> constructor -> field -> getter, can_reach shape recogniser, "
+            "sorted-map keys, tie-consistent range bounds, overflow depot construction",
+            "Decides which input field every model quantity is taken from (with swap detection), the documented shape of "
+            "the reachability rule and the tie-consistency of successor/predecessor enumeration. Numeric conversions are "
+            "not decided.", "5 C17"),
     "C02": ("static analysis: who-may-construct/who-may-call inventories, guard dependence (control slices), abstract "
             "interpretation of Option presence, flow-bound provenance",
             "Decides on all paths that formations only grow through the guarded replacement function, that the guard "
